@@ -828,11 +828,15 @@ where
                 });
                 match result {
                     Ok(()) => {
-                        // Make sure we get awoken when the operation is ready.
-                        shared.waker = Some(ctx.waker().clone());
+                        // NOTE: the submission is queued, so the status must be
+                        // updated before we run any code that can panic (such
+                        // as cloning the waker), otherwise the state would be
+                        // released while the kernel still uses it.
                         shared.status = Status::Running {
                             results: O::empty(),
                         };
+                        // Make sure we get awoken when the operation is ready.
+                        shared.waker = Some(ctx.waker().clone());
                         unlock(shared);
                     }
                     Err(QueueFull) => {
